@@ -403,11 +403,19 @@ pub fn run_case(ctx: &mut Ctx, rng: &mut ChaCha8Rng, n: usize, class: Class, scr
         B2(usize),
         Res1,
         Res2,
+        /// `res1 += δ`, `res2 -= δ`: cancels iff the batching challenge is 1
+        Pair12,
+        /// `L_j += δ`, `R_j -= δ`: cancels iff `u_j² = u_j⁻²`
+        PairLR(usize),
     }
     let mut targets: Vec<Target> = vec![Target::S, Target::Res1, Target::Res2];
     targets.extend((0..k).flat_map(|j| [Target::L(j), Target::R(j)]));
     let idx: Vec<usize> = if n <= sweep { (0..n).collect() } else { (0..sweep).map(|_| rng.gen_range(0..n)).collect() };
     targets.extend(idx.iter().flat_map(|&i| [Target::B1(i), Target::B2(i)]));
+    if script.is_none() {
+        targets.push(Target::Pair12);
+        targets.extend((0..k).map(Target::PairLR));
+    }
     for tg in targets {
         let delta = match rng.next_u32() % 3 {
             0 => F::ONE,
@@ -427,11 +435,19 @@ pub fn run_case(ctx: &mut Ctx, rng: &mut ChaCha8Rng, n: usize, class: Class, scr
             Target::B2(i) => d2[i] += delta,
             Target::Res1 => c1 += delta,
             Target::Res2 => c2 += delta,
+            Target::Pair12 => {
+                c1 += delta;
+                c2 -= delta;
+            }
+            Target::PairLR(j) => {
+                lr[j].0 += delta;
+                lr[j].1 -= delta;
+            }
         }
         let pb1: Vec<C> = d1.iter().map(g).collect();
         let pb2: Vec<C> = d2.iter().map(g).collect();
         let lr_pts: Vec<(C, C)> = match tg {
-            Target::L(_) | Target::R(_) => lr.iter().map(|(l, r)| (g(l), g(r))).collect(),
+            Target::L(_) | Target::R(_) | Target::PairLR(_) => lr.iter().map(|(l, r)| (g(l), g(r))).collect(),
             _ => parsed.lrs.clone(),
         };
         let bytes = encode_proof(&lr_pts, &s);
